@@ -13,8 +13,11 @@ import (
 	"time"
 
 	"github.com/gnolang/gno/gno.land/pkg/sdk/vm"
+	"github.com/gnolang/gno/gnovm/pkg/gnolang"
 	"github.com/gnolang/gno/tm2/pkg/amino"
 	"github.com/gnolang/gno/tm2/pkg/crypto"
+	"github.com/gnolang/gno/tm2/pkg/crypto/ed25519"
+	"github.com/gnolang/gno/tm2/pkg/crypto/mock"
 	"github.com/gnolang/gno/tm2/pkg/sdk/auth"
 	"github.com/gnolang/gno/tm2/pkg/sdk/bank"
 	"github.com/gnolang/gno/tm2/pkg/std"
@@ -26,6 +29,7 @@ import (
 
 const boxPath = "gno.land/r/sim/box"
 const libPath = "gno.land/p/sim/lib"
+const bagPath = "gno.land/r/sim/bag"
 
 // ---- process-level post-genesis images --------------------------------------
 
@@ -34,14 +38,24 @@ type image struct {
 	maxGas int64
 	hash   []byte
 	nums   map[string]uint64 // actor name -> account number
+	extra  bool              // chain-workload image: also holds the realm bag and the silent account erin
+}
+
+type imageKey struct {
+	maxGas int64
+	extra  bool
 }
 
 var (
 	imgMu  sync.Mutex
-	images = map[int64]*image{}
+	images = map[imageKey]*image{}
 )
 
 var actorNames = []string{"alice", "bob", "carol", "chaos1", "chaos2", "dave"}
+
+// silentActor is funded in the genesis of the chain-workload image only and never signs
+// anything: its account has no public key on record (the victim of forged-signer txs).
+const silentActor = "erin"
 
 func newActors() map[string]*actor {
 	m := map[string]*actor{}
@@ -54,11 +68,19 @@ func newActors() map[string]*actor {
 const genesisBalance = int64(1_000_000_000_000)
 
 // baseImage builds (once per worker process and MaxGas) the disk image after
-// InitChain + the first (empty) block. Runs clone it.
-func baseImage(maxGas int64) *image {
+// InitChain + the first (empty) block. Runs clone it. Every engine of this package
+// (and crash.go's own genesis construction) uses exactly this genesis.
+func baseImage(maxGas int64) *image { return buildImage(maxGas, false) }
+
+// chainImage is baseImage plus what only the shared chain workload (runChain) needs: the
+// second workload realm bag (imports box) and the funded, never-signing account erin.
+func chainImage(maxGas int64) *image { return buildImage(maxGas, true) }
+
+func buildImage(maxGas int64, extra bool) *image {
 	imgMu.Lock()
 	defer imgMu.Unlock()
-	if im, ok := images[maxGas]; ok {
+	key := imageKey{maxGas, extra}
+	if im, ok := images[key]; ok {
 		return im
 	}
 	disk := simdb.NewDisk("app", nil)
@@ -75,6 +97,10 @@ func baseImage(maxGas int64) *image {
 		}
 		g.Actors = append(g.Actors, acts[nm])
 	}
+	if extra {
+		g.Packages = append(g.Packages, readRealm(gnoDir("bag"), bagPath))
+		g.Actors = append(g.Actors, newActor(silentActor))
+	}
 	res := n.initChain(g, g.state())
 	if res.Error != nil {
 		kernel.Harnessf("InitChain: %v", res.Error)
@@ -85,7 +111,7 @@ func baseImage(maxGas int64) *image {
 		}
 	}
 	br := n.runBlock(blockSpec{Height: 1, Time: genesisTime.Add(time.Second)})
-	im := &image{disk: disk, maxGas: maxGas, hash: br.AppHash, nums: map[string]uint64{}}
+	im := &image{disk: disk, maxGas: maxGas, hash: br.AppHash, nums: map[string]uint64{}, extra: extra}
 	for _, a := range g.Actors {
 		acc, err := n.account(a.addr)
 		if err != nil || acc == nil {
@@ -94,7 +120,7 @@ func baseImage(maxGas int64) *image {
 		im.nums[a.name] = acc.GetAccountNumber()
 	}
 	n.app.Close()
-	images[maxGas] = im
+	images[key] = im
 	return im
 }
 
@@ -115,6 +141,14 @@ type simMsg struct {
 	args []string
 	send int64 // bank send amount (fn == "@send")
 	to   string
+	// pkg: realm a plain call goes to ("" = box, "bag" = the second workload realm).
+	pkg string
+	// maxDep: explicit MaxDeposit of this message in ugnot (0 = none given: the chain default applies).
+	maxDep int64
+	// calls: fn == "@calls": ONE MsgRun whose script makes these crossing calls in order.
+	calls []simMsg
+	// private: fn == "@addpkg": the package declares private = true (may be redeployed).
+	private bool
 }
 
 type simTx struct {
@@ -126,6 +160,17 @@ type simTx struct {
 	bytes    []byte
 	why      string
 	replayOf int // index+1 of an earlier accepted tx whose bytes are resubmitted
+	// mayFailDeposit: a message carries an explicit deposit limit the model cannot judge: the tx
+	// may fail with "not enough deposit" (no state change) or succeed (locking at most the limit).
+	mayFailDeposit bool
+	deployOf       string // name of the dynamic package this tx (re)deploys, if any
+}
+
+// dynInfo is the model of a package deployed by the workload under gno.land/r/sim/<name>:
+// see dynBody: Get() returns 2*val, Read(cur realm) returns 2002*val.
+type dynInfo struct {
+	private bool
+	val     int
 }
 
 type world struct {
@@ -156,6 +201,19 @@ type world struct {
 	dynCount   int
 	lastStorage, lastDeposit map[string]int64
 	onlyGrowth bool
+
+	dyn      map[string]dynInfo // every dynamic package that exists (public ones are also in dynPkgs)
+	pending  []string           // dynamic packages whose (re)deployment failed in the last block: probed first thing in the next block
+	pendPriv map[string]bool
+	curTxs   []*simTx // txs / results of the block being checked (for checkGraph)
+	curRes   []txResult
+}
+
+func (w *world) watched() []string {
+	if w.img != nil && w.img.extra {
+		return []string{boxPath, bagPath}
+	}
+	return []string{boxPath}
 }
 
 func (w *world) fail(prop, oracle, format string, args ...any) {
@@ -182,7 +240,8 @@ func (w *world) openNode(name string, prune ...stypes.PruneStrategy) *node {
 // ---- workload generation -----------------------------------------------------------
 
 var okFns = []string{"Incr", "Push", "Pop", "Share", "Unshare", "Adopt", "DropKids", "Grow", "Shrink", "PairBump", "Incr", "Push", "Push", "Grow",
-	"AddItem", "AddItem", "AddItem", "RemoveItem", "RemoveItem", "InsertItem", "SwapItems", "Record", "Record", "Forget"}
+	"AddItem", "AddItem", "AddItem", "RemoveItem", "RemoveItem", "InsertItem", "SwapItems", "Record", "Record", "Forget",
+	"MoveItem", "ReplaceItem", "ResetRec"}
 
 func (w *world) genBoxMsg() simMsg {
 	c := w.c
@@ -207,31 +266,112 @@ func (w *world) genBoxMsg() simMsg {
 		m.args = []string{strconv.Itoa(c.Intn(8))}
 	case "InsertItem":
 		m.args = []string{strconv.Itoa(c.Intn(8)), strconv.Itoa(1 + c.Intn(900))}
-	case "SwapItems":
+	case "SwapItems", "MoveItem":
 		m.args = []string{strconv.Itoa(c.Intn(8)), strconv.Itoa(c.Intn(8))}
+	case "ReplaceItem", "ResetRec":
+		m.args = []string{strconv.Itoa(c.Intn(8)), strconv.Itoa(1 + c.Intn(900))}
 	}
 	return m
 }
 
-func (w *world) buildTx(t *simTx) {
-	a := w.acts[t.signer]
+func realmPathOf(pkg string) string {
+	switch pkg {
+	case "":
+		return boxPath
+	case "bag":
+		return bagPath
+	}
+	return "gno.land/r/sim/" + pkg
+}
+
+// dynBody is the source of a dynamic package: the drawn value sits both in the package's STATE (V, computed
+// by the initializer at deployment) and in its CODE (the literal inside Get / Read), so that code and state
+// of two different deployments cannot be combined unnoticed: Read returns 1000*V + 2*val = 2002*val.
+func dynBody(name string, val string) string {
+	return fmt.Sprintf("package %s\n\nimport \"gno.land/p/sim/lib\"\n\nvar V = lib.Double(%s)\n\nfunc Get() int { return lib.Double(%s) }\n\nfunc Read(cur realm) int { return 1000*V + lib.Double(%s) }\n", name, val, val, val)
+}
+
+// callsScript renders the MsgRun script of an "@calls" message: every call is a separate
+// crossing call (its own realm transaction) inside ONE message.
+func callsScript(calls []simMsg) string {
+	imports := map[string]bool{}
+	var body strings.Builder
+	for _, cm := range calls {
+		pkg := cm.pkg
+		if pkg == "" {
+			pkg = "box"
+		}
+		imports[realmPathOf(cm.pkg)] = true
+		fmt.Fprintf(&body, "\t%s.%s(cross(cur)", pkg, cm.fn)
+		for _, a := range cm.args {
+			body.WriteString(", " + a)
+		}
+		body.WriteString(")\n")
+	}
+	var sb strings.Builder
+	sb.WriteString("package main\n\nimport (\n")
+	for _, p := range kernel.SortedKeys(imports) {
+		fmt.Fprintf(&sb, "\t%q\n", p)
+	}
+	sb.WriteString(")\n\nfunc main(cur realm) {\n" + body.String() + "}\n")
+	return sb.String()
+}
+
+func depositOf(m simMsg) std.Coins {
+	if m.maxDep > 0 {
+		return coins(m.maxDep)
+	}
+	return nil
+}
+
+func (w *world) buildMsgs(t *simTx, a *actor) []std.Msg {
 	var msgs []std.Msg
 	for _, m := range t.msgs {
-		if m.fn == "@send" {
-			msgs = append(msgs, bank.NewMsgSend(a.addr, w.acts[m.to].addr, coins(m.send)))
-		} else if m.fn == "@run" {
+		switch m.fn {
+		case "@send":
+			msgs = append(msgs, bank.NewMsgSend(a.addr, w.actorOf(m.to).addr, coins(m.send)))
+		case "@run":
 			// MsgRun script importing the genesis library and the box realm
 			script := fmt.Sprintf("package main\n\nimport (\n\t\"gno.land/p/sim/lib\"\n\t\"gno.land/r/sim/box\"\n)\n\nfunc main(cur realm) {\n\tbox.Incr(cross(cur))\n\tprintln(lib.Tag(\"run\", lib.Double(%s)))\n}\n", m.args[0])
 			msgs = append(msgs, vm.NewMsgRun(a.addr, nil, []*std.MemFile{{Name: "main.gno", Body: script}}))
-		} else if m.fn == "@addpkg" {
+		case "@calls":
+			mr := vm.NewMsgRun(a.addr, nil, []*std.MemFile{{Name: "main.gno", Body: callsScript(m.calls)}})
+			mr.MaxDeposit = depositOf(m)
+			msgs = append(msgs, mr)
+		case "@addpkg":
 			name := m.args[0]
-			body := fmt.Sprintf("package %s\n\nimport \"gno.land/p/sim/lib\"\n\nvar V = lib.Double(%s)\n\nfunc Get() int { return V }\n", name, m.args[1])
-			msgs = append(msgs, vm.MsgAddPackage{Creator: a.addr, Package: memPkg("gno.land/r/sim/"+name, map[string]string{name + ".gno": body})})
-		} else {
-			msgs = append(msgs, vm.NewMsgCall(a.addr, nil, boxPath, m.fn, m.args))
+			files := map[string]string{name + ".gno": dynBody(name, m.args[1])}
+			if m.private {
+				files["gnomod.toml"] = strings.TrimRight(gnolang.GenGnoModLatest("gno.land/r/sim/"+name), "\n") + "\nprivate = true\n"
+			}
+			msgs = append(msgs, vm.MsgAddPackage{Creator: a.addr, Package: memPkg("gno.land/r/sim/"+name, files), MaxDeposit: depositOf(m)})
+		case "@callpkg": // MsgCall of a dynamic package's crossing reader
+			msgs = append(msgs, vm.NewMsgCall(a.addr, nil, "gno.land/r/sim/"+m.args[0], "Read", nil))
+		case "@runpkg": // MsgRun importing a dynamic package and printing what it returns
+			name := m.args[0]
+			script := fmt.Sprintf("package main\n\nimport %q\n\nfunc main(cur realm) {\n\tprintln(%s.Get())\n}\n", "gno.land/r/sim/"+name, name)
+			msgs = append(msgs, vm.NewMsgRun(a.addr, nil, []*std.MemFile{{Name: "main.gno", Body: script}}))
+		default:
+			mc := vm.NewMsgCall(a.addr, nil, realmPathOf(m.pkg), m.fn, m.args)
+			mc.MaxDeposit = depositOf(m)
+			msgs = append(msgs, mc)
 		}
 	}
-	tx := std.Tx{Msgs: msgs, Fee: std.NewFee(t.gas, std.NewCoin("ugnot", t.fee))}
+	return msgs
+}
+
+func (w *world) actorOf(name string) *actor {
+	if a, ok := w.acts[name]; ok {
+		return a
+	}
+	a := newActor(name) // not part of this run's genesis (e.g. the silent account on the plain base image)
+	w.acts[name] = a
+	return a
+}
+
+func (w *world) buildTx(t *simTx) {
+	a := w.acts[t.signer]
+	tx := std.Tx{Msgs: w.buildMsgs(t, a), Fee: std.NewFee(t.gas, std.NewCoin("ugnot", t.fee))}
 	signTx(&tx, []*actor{a}, false)
 	t.bytes = encTx(tx)
 }
@@ -325,12 +465,279 @@ func (w *world) genTx(weights []int) *simTx {
 			t.why = "addpkg"
 		}
 		t.msgs = []simMsg{{fn: "@addpkg", args: []string{name, strconv.Itoa(c.Intn(50))}}}
+		t.deployOf = name
+	case 9: // an already persisted object is MOVED (detached and re-attached in one call) and a LATER message
+		// (or a later crossing call of the same message) of the SAME tx drops exactly that object
+		w.genMoveThenDrop(t)
+	case 10: // ONE message changes the storage of two realms; explicit deposit limits around the needs
+		w.genTwoRealm(t)
+	case 11: // (re)deployment of dynamic packages: private redeploys, fresh private / public realms, deploy + failing message
+		w.genDeploy(t, false)
+	case 12: // use of a dynamic package: the result must be what the successfully deployed body returns
+		w.genUsePkg(t, "")
 	case 6: // ante rejections: no state change at all, not even a fee
 		t.kind, t.signer = kAnteReject, w.payer(c.Bool())
 		t.msgs = []simMsg{w.genBoxMsg()}
-		t.why = []string{"bad signature", "wrong sequence (future)", "wrong sequence (past)", "wrong account number", "wrong chain id", "replay of accepted tx", "unknown signer", "fee above balance"}[c.Intn(8)]
+		t.why = anteWhys[c.Intn(len(anteWhys))]
 	}
 	return t
+}
+
+var anteWhys = []string{"bad signature", "wrong sequence (future)", "wrong sequence (past)", "wrong account number", "wrong chain id", "replay of accepted tx", "unknown signer", "fee above balance",
+	// forged signer: the named signer never produced the signature
+	"forged: mock key addressing the silent account", "forged: mock key addressing an active account", "forged: ed25519 key not matching the address",
+	"forged: wrong secp256k1 key signs, pubkey omitted", "forged: wrong secp256k1 key signs, victim pubkey given", "forged: wrong secp256k1 key signs, own pubkey given",
+	"forged: mock key addressing the silent account", "no signatures", "two signatures for one signer"}
+
+// genMoveThenDrop fills t with: [AddItem...] so that enough persisted objects exist, a MOVE of one of
+// them (SwapItems / MoveItem on the slice of objects, Rehome on the pointer fields of the records), and then,
+// in a later message of the same tx (or a later crossing call of the same MsgRun), the direct removal
+// of exactly the object that was moved.
+func (w *world) genMoveThenDrop(t *simTx) {
+	c := w.c
+	t.kind, t.signer, t.why = kOK, w.payer(false), "move then drop"
+	trial := w.box.clone()
+	var seq []simMsg
+	add := func(m simMsg) {
+		seq = append(seq, m)
+		if trial.apply(m.fn, m.args) {
+			t.kind = kFail
+			t.why = "move then drop (model: a message fails)"
+		}
+	}
+	// Variant 2 (box.Rehome: a cell moves from one record to ANOTHER, still existing, record) is generated only
+	// with the knob rehome=on: on the unchanged tree it persists the moved object with the OwnerID of the record
+	// it left (oracle owner-does-not-hold-reference) -- the stale-OwnerID defect already listed for C06 in a
+	// shape whose signature is not listed. The default workload keeps to moves within one owner.
+	nvar := 2
+	if w.p.Knob("rehome", "") == "on" {
+		nvar = 3
+	}
+	variant := c.Intn(nvar)
+	asScript := c.Intn(3) == 2
+	for len(trial.items) < 3 || len(trial.recs) < 2 {
+		add(simMsg{fn: "AddItem", args: []string{strconv.Itoa(1 + c.Intn(900))}})
+		if len(seq) > 4 {
+			break // cannot happen: every AddItem adds an item and a record
+		}
+	}
+	itoa := strconv.Itoa
+	switch variant {
+	case 0, 1: // items: the object that was at i ends up at j (j is not the last slot: RemoveItem then overwrites it)
+		n := len(trial.items)
+		j := c.Intn(n - 1)
+		i := (j + 1 + c.Intn(n-1)) % n
+		fn := []string{"SwapItems", "MoveItem"}[variant]
+		add(simMsg{fn: fn, args: []string{itoa(i), itoa(j)}})
+		target := j
+		if c.Intn(4) == 3 {
+			target = i // the other slot of the move
+		}
+		if c.Bool() {
+			add(simMsg{fn: "ReplaceItem", args: []string{itoa(target), itoa(1 + c.Intn(900))}})
+		} else {
+			add(simMsg{fn: "RemoveItem", args: []string{itoa(target)}})
+		}
+	default: // records: the cells of records i and j change places; then one of them is replaced
+		n := len(trial.recs)
+		i := c.Intn(n)
+		j := (i + 1 + c.Intn(n-1)) % n
+		add(simMsg{fn: "Rehome", args: []string{itoa(i), itoa(j)}})
+		target := j
+		if c.Bool() {
+			target = i
+		}
+		add(simMsg{fn: "ResetRec", args: []string{itoa(target), itoa(1 + c.Intn(900))}})
+	}
+	if asScript {
+		// the objects the script moves must be persisted before the script runs: the AddItems stay separate messages
+		k := len(seq) - 2
+		t.msgs = append(t.msgs, seq[:k]...)
+		t.msgs = append(t.msgs, simMsg{fn: "@calls", calls: seq[k:]})
+		t.why += " (two crossing calls in one message)"
+	} else {
+		t.msgs = seq
+	}
+	if c.Intn(3) == 0 {
+		t.msgs = append(t.msgs, w.genBoxMsg())
+	}
+}
+
+// Estimated per-realm storage needs (bytes) of the two-realm ops, from measurements of the encoding: a string
+// appended to a persisted []string costs its length + 62 bytes in a grown array, + 24 in a never used slot of
+// the preallocated twin array, + 5 in a slot of it that held a string before; creating the backing array of a
+// nil slice costs about 314 bytes. ONLY used to aim the drawn deposit limits; no oracle depends on it.
+func growEstimate(n, sz, have int) int64 {
+	e := int64(n) * int64(sz+62)
+	if have == 0 {
+		e += 314
+	}
+	return e
+}
+
+func (m *boxModel) twinEstimate(n, sz int) int64 {
+	var e int64
+	for k := 0; k < n; k++ {
+		if m.twin+k < m.twinHW {
+			e += int64(sz + 5)
+		} else {
+			e += int64(sz + 24)
+		}
+	}
+	return e
+}
+
+// genTwoRealm: one message grows (or shrinks) the storage of bag AND box.
+func (w *world) genTwoRealm(t *simTx) {
+	c := w.c
+	t.kind, t.signer, t.why = kOK, w.payer(false), "two-realm message"
+	if !w.img.extra {
+		t.msgs = []simMsg{w.genBoxMsg()}
+		return
+	}
+	itoa := strconv.Itoa
+	var m simMsg
+	var needA, needB int64 // estimated deposit needs of the two realms (ugnot, price 100/byte)
+	switch c.Intn(6) {
+	case 0, 1, 2: // same layout, same sizes: both realms grow by the same number of bytes
+		n, sz := 1+c.Intn(3), 8+c.Intn(120)
+		m = simMsg{pkg: "bag", fn: "GrowBoth", args: []string{itoa(n), itoa(sz)}}
+		needA = 100 * w.box.twinEstimate(n, sz)
+		needB = needA
+	case 3: // both realms release the same number of bytes
+		m = simMsg{pkg: "bag", fn: "ShrinkBoth", args: []string{itoa(1 + c.Intn(4))}}
+	case 4: // different growth in the two realms
+		n, sz, k, tz := 1+c.Intn(3), 8+c.Intn(120), 1+c.Intn(3), 8+c.Intn(120)
+		m = simMsg{pkg: "bag", fn: "GrowSkew", args: []string{itoa(n), itoa(sz), itoa(k), itoa(tz)}}
+		needA, needB = 100*growEstimate(n, sz, w.box.bagLog), 100*growEstimate(k, tz+2, w.box.logLen)
+	default:
+		m = simMsg{pkg: "bag", fn: "Trim", args: []string{itoa(1 + c.Intn(4))}}
+	}
+	if needA > 0 {
+		lo, hi := min(needA, needB), max(needA, needB)
+		wNone := 4
+		if w.prop == "C09" {
+			wNone = 1
+		}
+		switch c.Weighted([]int{wNone, 1, 1, 1, 1}) {
+		case 0: // no explicit limit: the chain default applies
+		case 1: // far below every single need
+			m.maxDep = 1 + int64(c.Intn(int(lo/2)))
+			t.why += ", limit far below the needs"
+		case 2, 3: // covers each realm's need alone, not their sum
+			m.maxDep = hi + (lo*int64(1+c.Intn(3)))/4
+			t.why += ", limit between the larger need and the sum"
+		default: // at or above the sum
+			m.maxDep = hi + lo + (lo*int64(c.Intn(5)))/4
+			t.why += ", limit at or above the sum"
+		}
+	}
+	if m.maxDep > 0 {
+		t.kind, t.mayFailDeposit = kEither, true
+	}
+	if needA > 0 && c.Intn(4) == 0 {
+		// the same growth through a MsgRun script: separate crossing calls, ONE message, one limit
+		var calls []simMsg
+		if m.fn == "GrowBoth" {
+			calls = []simMsg{{pkg: "bag", fn: "GrowBoth", args: m.args}}
+		} else {
+			calls = []simMsg{{pkg: "bag", fn: "GrowSkew", args: m.args}, {fn: "Grow", args: []string{"1", "16"}}}
+		}
+		m = simMsg{fn: "@calls", calls: calls, maxDep: m.maxDep}
+		t.why += " (MsgRun)"
+	}
+	t.msgs = []simMsg{m}
+}
+
+var privNames = []string{"pv1", "pv2"}
+
+// genDeploy: (re)deploys a dynamic package. preferRedeploy: replace an existing private realm if there is one
+// (the interesting case when the tx is going to fail as a whole: the old code must stay in force).
+func (w *world) genDeploy(t *simTx, preferRedeploy bool) {
+	c := w.c
+	t.kind, t.signer = kOK, w.payer(false)
+	val := strconv.Itoa(c.Intn(50))
+	withFail := false
+	var m simMsg
+	var existing []string
+	for _, nm := range privNames {
+		if _, ok := w.dyn[nm]; ok {
+			existing = append(existing, nm)
+		}
+	}
+	if preferRedeploy && len(existing) > 0 && c.Intn(4) != 3 {
+		name := existing[c.Intn(len(existing))]
+		t.msgs = []simMsg{{fn: "@addpkg", args: []string{name, val}, private: true}}
+		t.deployOf, t.why = name, "addpkg private redeploy"
+		return
+	}
+	switch c.Intn(5) {
+	case 0, 1, 2: // private realm: the first free name of the pool, else a redeploy over an existing one
+		name := ""
+		for _, nm := range privNames {
+			if _, ok := w.dyn[nm]; !ok {
+				name = nm
+				break
+			}
+		}
+		if name == "" || (len(w.dyn) > 0 && c.Bool()) {
+			name = privNames[c.Intn(len(privNames))]
+		}
+		m = simMsg{fn: "@addpkg", args: []string{name, val}, private: true}
+		t.why = "addpkg private"
+		if _, ok := w.dyn[name]; ok {
+			t.why = "addpkg private redeploy"
+		}
+	case 3: // fresh public realm
+		w.dynCount++
+		m = simMsg{fn: "@addpkg", args: []string{fmt.Sprintf("dyn%d", w.dynCount), val}}
+		t.why = "addpkg"
+	default: // a deployment whose tx fails in a later message
+		name := privNames[c.Intn(len(privNames))]
+		m = simMsg{fn: "@addpkg", args: []string{name, val}, private: true}
+		t.why = "addpkg private, then a failing message"
+		withFail = true
+	}
+	t.msgs = []simMsg{m}
+	t.deployOf = m.args[0]
+	if withFail {
+		t.kind = kFail
+		t.msgs = append(t.msgs, simMsg{fn: "Fail", args: []string{strconv.Itoa(c.Intn(9))}})
+	}
+}
+
+// genDeployOf deploys name again (after a failed attempt) with a new body.
+func (w *world) genDeployOf(t *simTx, name string, private bool) {
+	t.kind, t.signer = kOK, w.payer(false)
+	t.msgs = []simMsg{{fn: "@addpkg", args: []string{name, strconv.Itoa(50 + w.c.Intn(50))}, private: private}}
+	t.deployOf = name
+	t.why = "addpkg after a failed attempt"
+	if d, ok := w.dyn[name]; ok && !d.private {
+		t.kind, t.why = kFail, "addpkg colliding path"
+	}
+}
+
+// genUsePkg calls (MsgCall Read) or imports (MsgRun, public packages only) a dynamic package; name ""
+// draws one of the existing packages (or a path nothing was ever deployed at).
+func (w *world) genUsePkg(t *simTx, name string) {
+	c := w.c
+	t.kind, t.signer = kOK, w.payer(false)
+	if name == "" {
+		names := append(kernel.SortedKeys(w.dyn), "dyn0")
+		name = names[c.Intn(len(names))]
+	}
+	d, ok := w.dyn[name]
+	switch {
+	case !ok:
+		t.kind, t.why = kFail, "call of a package that does not exist"
+		t.msgs = []simMsg{{fn: "@callpkg", args: []string{name}}}
+	case !d.private && c.Bool():
+		t.why = "run importing a dynamic package"
+		t.msgs = []simMsg{{fn: "@runpkg", args: []string{name}}}
+	default:
+		t.why = "call of a dynamic package"
+		t.msgs = []simMsg{{fn: "@callpkg", args: []string{name}}}
+	}
 }
 
 // finishTx signs t given the signer's current model sequence; applies the
@@ -369,15 +776,13 @@ func (w *world) finishTx(t *simTx) {
 	case strings.HasPrefix(t.why, "replay") && len(w.accepted) > 0:
 		t.bytes = w.accepted[w.c.Intn(len(w.accepted))]
 	case strings.HasPrefix(t.why, "wrong chain id"):
-		var msgs []std.Msg
-		for _, m := range t.msgs {
-			msgs = append(msgs, vm.NewMsgCall(a.addr, nil, boxPath, m.fn, m.args))
-		}
-		tx := std.Tx{Msgs: msgs, Fee: std.NewFee(t.gas, std.NewCoin("ugnot", t.fee))}
+		tx := std.Tx{Msgs: w.buildMsgs(t, a), Fee: std.NewFee(t.gas, std.NewCoin("ugnot", t.fee))}
 		sb, _ := tx.GetSignBytes("other-chain", a.num, a.seq)
 		sig, _ := a.priv.Sign(sb)
 		tx.Signatures = []std.Signature{{PubKey: a.priv.PubKey(), Signature: sig}}
 		t.bytes = encTx(tx)
+	case strings.HasPrefix(t.why, "forged"), t.why == "no signatures", t.why == "two signatures for one signer":
+		w.forgeTx(t)
 	default: // bad signature: flip one byte of a valid signature
 		t.why = "bad signature"
 		w.buildTx(t)
@@ -388,6 +793,69 @@ func (w *world) finishTx(t *simTx) {
 		t.bytes = encTx(tx)
 	}
 	*a = save
+}
+
+
+// forgeTx builds a tx that names a signer who never produced the signature (or that carries a
+// malformed signature list). The drawn payer is the attacker; the victim is another account.
+// Every variant must be rejected by the ante handler with no state change at all.
+func (w *world) forgeTx(t *simTx) {
+	c := w.c
+	attackerName := t.signer
+	attacker := w.acts[attackerName]
+	mkFee := func() std.Fee { return std.NewFee(t.gas, std.NewCoin("ugnot", t.fee)) }
+	if t.why == "no signatures" || t.why == "two signatures for one signer" {
+		tx := std.Tx{Msgs: w.buildMsgs(t, attacker), Fee: mkFee()}
+		if t.why != "no signatures" {
+			signTx(&tx, []*actor{attacker}, false)
+			tx.Signatures = append(tx.Signatures, tx.Signatures[0])
+		}
+		t.bytes = encTx(tx)
+		return
+	}
+	victimName := silentActor
+	if !strings.Contains(t.why, "silent account") {
+		victimName = []string{silentActor, "alice", "bob", "carol"}[c.Intn(4)]
+		if strings.Contains(t.why, "active account") {
+			victimName = []string{"alice", "bob", "carol"}[c.Intn(3)]
+		}
+		if victimName == attackerName {
+			victimName = silentActor
+			if strings.Contains(t.why, "active account") {
+				victimName = map[string]string{"alice": "bob", "bob": "carol", "carol": "alice"}[attackerName]
+			}
+		}
+	}
+	victim := w.actorOf(victimName)
+	t.signer = victimName
+	if c.Bool() {
+		t.msgs = []simMsg{{fn: "@send", to: attackerName, send: int64(1 + c.Intn(5000))}}
+	}
+	tx := std.Tx{Msgs: w.buildMsgs(t, victim), Fee: mkFee()}
+	sb, err := tx.GetSignBytes(chainID, victim.num, victim.seq)
+	if err != nil {
+		kernel.Harnessf("sign bytes: %v", err)
+	}
+	var sig std.Signature
+	switch {
+	case strings.Contains(t.why, "mock key"):
+		pk := mock.PubKeyMock(victim.addr[:]) // Address() of a mock key is its bytes: exactly the victim's address
+		sig = std.Signature{PubKey: pk, Signature: fmt.Appendf(nil, "signature-for-%X-by-%X", sb, []byte(pk))}
+	case strings.Contains(t.why, "ed25519"):
+		priv := ed25519.GenPrivKeyFromSecret([]byte("verif-forger-" + attackerName))
+		s, _ := priv.Sign(sb)
+		sig = std.Signature{PubKey: priv.PubKey(), Signature: s}
+	default: // the attacker's secp256k1 key signs the victim's sign bytes
+		s, _ := attacker.priv.Sign(sb)
+		sig = std.Signature{Signature: s}
+		if strings.Contains(t.why, "victim pubkey given") {
+			sig.PubKey = victim.priv.PubKey()
+		} else if strings.Contains(t.why, "own pubkey given") {
+			sig.PubKey = attacker.priv.PubKey()
+		}
+	}
+	tx.Signatures = []std.Signature{sig}
+	t.bytes = encTx(tx)
 }
 
 // ---- model update from results --------------------------------------------------------
@@ -443,7 +911,27 @@ func (w *world) applyResult(t *simTx, r txResult, blockGasLeftBefore int64) {
 	for k, v := range w.bal {
 		trialBal[k] = v
 	}
+	trialDyn := map[string]dynInfo{}
+	for k, v := range w.dyn {
+		trialDyn[k] = v
+	}
 	modelFails := false
+	wantData, dataKnown := "", len(t.msgs) == 1 // expected result data of a single-message tx using a dynamic package
+	var applyCall func(m simMsg) bool
+	applyCall = func(m simMsg) bool { // true: the model says the message fails
+		switch {
+		case m.fn == "@calls":
+			for _, cm := range m.calls {
+				if applyCall(cm) {
+					return true
+				}
+			}
+			return false
+		case m.pkg == "bag":
+			return trial.applyBag(m.fn, m.args)
+		}
+		return trial.apply(m.fn, m.args)
+	}
 	for _, m := range t.msgs {
 		if m.fn == "@send" {
 			if trialBal[t.signer] < m.send {
@@ -463,13 +951,28 @@ func (w *world) applyResult(t *simTx, r txResult, blockGasLeftBefore int64) {
 			continue
 		}
 		if m.fn == "@addpkg" {
-			if w.dynPkgs[m.args[0]] {
-				modelFails = true // path already taken
+			if d, ok := trialDyn[m.args[0]]; ok && !(d.private && m.private) {
+				modelFails = true // path already taken (only a private realm may be replaced, by a private one)
 				break
+			}
+			v, _ := strconv.Atoi(m.args[1])
+			trialDyn[m.args[0]] = dynInfo{private: m.private, val: v}
+			continue
+		}
+		if m.fn == "@callpkg" || m.fn == "@runpkg" {
+			d, ok := trialDyn[m.args[0]]
+			if !ok || (d.private && m.fn == "@runpkg") {
+				modelFails = true // nothing deployed there (or: a private realm cannot be imported)
+				break
+			}
+			if m.fn == "@callpkg" {
+				wantData = fmt.Sprintf("(%d int)\n\n", 2002*d.val)
+			} else {
+				wantData = fmt.Sprintf("%d\n", 2*d.val)
 			}
 			continue
 		}
-		if trial.apply(m.fn, m.args) {
+		if applyCall(m) {
 			modelFails = true
 			break
 		}
@@ -484,34 +987,136 @@ func (w *world) applyResult(t *simTx, r txResult, blockGasLeftBefore int64) {
 			w.fail("C02", "failing-tx-succeeded", "%s must fail but succeeded", desc)
 			return
 		}
+		if dataKnown && wantData != "" {
+			got, _ := hex.DecodeString(r.Data)
+			if string(got) != wantData {
+				w.fail("C02", "dynamic-package-result-vs-model", "%s returned %q; the body that was successfully deployed at that path returns %q (model of the deployed packages: %v)", desc, got, wantData, w.dyn)
+				return
+			}
+			w.r.Probe("dynamic_package_results_checked")
+		}
 		dep, ref := eventCoins(r.Events)
+		// C09: a message never locks more than its own deposit limit. Deposit events carry no message
+		// index, so the tx is judged as a whole, and only when every VM message states a limit.
+		if lim, all := txDepositLimit(t); all {
+			if dep > lim {
+				w.fail("C09", "deposit-exceeds-message-limit", "%s succeeded and locked %dugnot of storage deposit (events %s) although its message(s) limit the deposit to %dugnot", desc, dep, r.Events, lim)
+				return
+			}
+			w.r.Probe("deposit_limit_respected_on_success")
+		}
+		if settlesSeveralRealms(r) {
+			// one tx settled the storage deposit of several realms (C01: the order of these events is part of the tx result)
+			w.r.Probe("tx_ok_settling_several_realms")
+			if equalDeltaInTwoRealms(r) {
+				w.r.Probe("tx_ok_equal_byte_delta_in_two_realms")
+			}
+		}
 		w.bal = trialBal
 		w.bal[t.signer] += ref - dep
 		for _, m := range t.msgs {
-			if m.fn == "@addpkg" {
+			if m.fn == "@addpkg" && !m.private {
 				w.dynPkgs[m.args[0]] = true
 			}
 		}
+		w.dyn = trialDyn
 		w.box = trial
 		w.r.Probe("tx_ok")
 		if len(t.msgs) > 1 {
 			w.r.Probe("tx_ok_multi_msg")
+		}
+		if t.deployOf != "" {
+			w.r.Probe("deploys_ok")
 		}
 	default:
 		// failed after ante: only the fee and the sequence may have changed (C02).
 		// Running out of the tx's own gas (GasUsed >= GasWanted) or crossing the block gas
 		// limit (GasUsed > block gas left) are legitimate failures of ANY transaction.
 		legitOOG := isOOG(r) && (r.GasU >= r.GasW || r.GasU > blockGasLeftBefore)
-		if (t.kind == kOK || t.kind == kEither || t.kind == kBlockGas) && !legitOOG && !modelFails {
+		// a tx carrying an explicit deposit limit may fail because the limit does not cover the storage it uses
+		depositFail := t.mayFailDeposit && strings.Contains(r.Log, "not enough deposit to cover the storage usage")
+		if (t.kind == kOK || t.kind == kEither || t.kind == kBlockGas) && !legitOOG && !modelFails && !depositFail {
 			kernel.Harnessf("%s was expected to succeed but failed (block gas left %d): %s %s", desc, blockGasLeftBefore, r.Err, clip(r.Log, 600))
 		}
 		if isOOG(r) {
 			w.r.Probe("tx_out_of_gas")
 			if strings.Contains(r.Log, "block gas meter") {
 				w.r.Probe("tx_crossed_block_gas_limit")
+				if t.deployOf != "" && t.kind != kFail {
+					w.r.Probe("deploy_crossed_block_gas_limit")
+				}
 			}
+		} else if depositFail {
+			w.r.Probe("tx_failed_deposit_limit")
 		} else {
 			w.r.Probe("tx_failed_in_msgs")
+		}
+		if t.deployOf != "" {
+			// a (re)deployment that did not take effect: the package is used first thing in the next block
+			w.notePending(t)
+		}
+	}
+}
+
+// settlesSeveralRealms: the storage-deposit events of the tx result name at least two different realms (a tx
+// that crossed the block gas limit after its messages succeeded is reported failed WITH its events).
+func settlesSeveralRealms(r txResult) bool {
+	locks, unlocks := storageEvents(r.Events)
+	paths := map[string]bool{}
+	for _, e := range append(locks, unlocks...) {
+		paths[e.path] = true
+	}
+	return len(paths) >= 2
+}
+
+// equalDeltaInTwoRealms: two storage-deposit events of the same kind of one tx carry the same byte delta for different realms.
+func equalDeltaInTwoRealms(r txResult) bool {
+	locks, unlocks := storageEvents(r.Events)
+	for _, evs := range [][]storageEv{locks, unlocks} {
+		for i := range evs {
+			for j := i + 1; j < len(evs); j++ {
+				if evs[i].bytes == evs[j].bytes && evs[i].path != evs[j].path {
+					return true
+				}
+			}
+		}
+	}
+	return false
+}
+
+// txDepositLimit returns the sum of the explicit deposit limits of t's VM messages and whether
+// every VM message of t states one.
+func txDepositLimit(t *simTx) (limit int64, all bool) {
+	n := 0
+	for _, m := range t.msgs {
+		if m.fn == "@send" {
+			continue
+		}
+		if m.maxDep <= 0 {
+			return 0, false
+		}
+		limit += m.maxDep
+		n++
+	}
+	return limit, n > 0
+}
+
+func (w *world) notePending(t *simTx) {
+	for _, p := range w.pending {
+		if p == t.deployOf {
+			return
+		}
+	}
+	if len(w.pending) >= 2 {
+		return
+	}
+	w.pending = append(w.pending, t.deployOf)
+	if w.pendPriv == nil {
+		w.pendPriv = map[string]bool{}
+	}
+	for _, m := range t.msgs {
+		if m.fn == "@addpkg" {
+			w.pendPriv[t.deployOf] = m.private
 		}
 	}
 }
@@ -526,13 +1131,25 @@ func clip(s string, n int) string {
 func msgsString(ms []simMsg) string {
 	var parts []string
 	for _, m := range ms {
-		if m.fn == "@send" {
-			parts = append(parts, fmt.Sprintf("send(%d→%s)", m.send, m.to))
-		} else if m.fn == "@run" || m.fn == "@addpkg" {
-			parts = append(parts, m.fn[1:]+"("+strings.Join(m.args, ",")+")")
-		} else {
-			parts = append(parts, m.fn+"("+strings.Join(m.args, ",")+")")
+		var p string
+		switch {
+		case m.fn == "@send":
+			p = fmt.Sprintf("send(%d→%s)", m.send, m.to)
+		case m.fn == "@calls":
+			p = "run{" + msgsString(m.calls) + "}"
+		case m.fn == "@addpkg" && m.private:
+			p = "addpkg-private(" + strings.Join(m.args, ",") + ")"
+		case strings.HasPrefix(m.fn, "@"):
+			p = m.fn[1:] + "(" + strings.Join(m.args, ",") + ")"
+		case m.pkg != "":
+			p = m.pkg + "." + m.fn + "(" + strings.Join(m.args, ",") + ")"
+		default:
+			p = m.fn + "(" + strings.Join(m.args, ",") + ")"
 		}
+		if m.maxDep > 0 {
+			p += fmt.Sprintf("[max_deposit=%d]", m.maxDep)
+		}
+		parts = append(parts, p)
 	}
 	return strings.Join(parts, ";")
 }
@@ -561,6 +1178,7 @@ func (w *world) checkBlock(b blockSpec, txs []*simTx, res blockResult) {
 	dump := au.dump()
 	changed := diffKeys(w.prevDump, dump)
 	w.prevDump = dump
+	w.curTxs, w.curRes = txs, res.Txs
 
 	// classification of the block's txs
 	allNoMsgEffects := true // every tx either ante-rejected or failed
@@ -618,6 +1236,20 @@ func (w *world) checkBlock(b blockSpec, txs []*simTx, res blockResult) {
 		w.fail("C02", "realm-state-vs-model", "height %d after %v:\n realm: %s\n model: %s", b.Height, ds, got, want)
 		return
 	}
+	if w.img.extra {
+		got, err := w.ref.qeval(bagPath, "Dump()")
+		if err != nil {
+			kernel.Harnessf("qeval bag Dump: %v", err)
+		}
+		if want := `("` + w.box.dumpBag() + `" string)`; got != want {
+			var ds []string
+			for i, t := range txs {
+				ds = append(ds, fmt.Sprintf("[%s: %s → %s]", t.why, msgsString(t.msgs), res.Txs[i].Err))
+			}
+			w.fail("C02", "realm-state-vs-model", "height %d after %v:\n realm bag: %s\n model: %s", b.Height, ds, got, want)
+			return
+		}
+	}
 	// accounts vs model (C15 sequences, C02 fee-only, C08 balances)
 	for _, nm := range kernel.SortedKeys(w.acts) {
 		a := w.acts[nm]
@@ -668,6 +1300,8 @@ func runChain(c *kernel.Choices, p kernel.Params) *kernel.Result {
 	switch p.Property {
 	case "C02", "C10":
 		small = c.Chance(1, 2)
+	case "C01":
+		small = c.Chance(1, 3) // block-gas crossings of code-deploying txs, seen through the restarted twin
 	default:
 		small = c.Chance(1, 6)
 	}
@@ -675,9 +1309,11 @@ func runChain(c *kernel.Choices, p kernel.Params) *kernel.Result {
 	if small {
 		maxGas = 15_000_000
 	}
-	w.img = baseImage(maxGas)
+	w.img = chainImage(maxGas)
 	w.acts = newActors()
+	w.acts[silentActor] = newActor(silentActor) // funded at genesis, never signs: no public key on record
 	w.bal = map[string]int64{}
+	w.dyn = map[string]dynInfo{}
 	for nm, a := range w.acts {
 		if num, ok := w.img.nums[nm]; ok {
 			a.num = num
@@ -702,6 +1338,11 @@ func runChain(c *kernel.Choices, p kernel.Params) *kernel.Result {
 	w.prevDump = au.dump()
 
 	useTwin := p.Property == "C01" || c.Chance(1, 4)
+	if small && p.Property == "C02" {
+		// code deployed by a tx that crosses the block gas limit must not stay in the VM's in-memory caches:
+		// besides the model, a twin restarted at drawn block boundaries witnesses every later use of the package
+		useTwin = true
+	}
 	if p.Knob("twin", "") == "off" {
 		useTwin = false
 	}
@@ -717,17 +1358,28 @@ func runChain(c *kernel.Choices, p kernel.Params) *kernel.Result {
 	}
 	// swarm weights: ok-call, send, multi, fail-at-k, oog-sweep, unbounded, ante-reject
 	weights := []int{3 + c.Intn(6), c.Intn(4), c.Intn(5), c.Intn(5), c.Intn(5), c.Intn(3), c.Intn(5), c.Intn(4), c.Intn(3)}
+	// move-then-drop, two-realm message / deposit limits, dynamic package (re)deployment, dynamic package use
+	weights = append(weights, c.Intn(3), c.Intn(3), c.Intn(3), c.Intn(3))
 	if small {
 		weights[8] = 0 // deployments do not fit the small block gas limit
 	}
 	if p.Property == "C01" {
 		weights[7] += 2
 		weights[8] += 2
+		weights[10] += 5
+		weights[11]++
+		weights[12]++
 	}
 	switch p.Property {
 	case "C02":
 		weights[3] += 3
 		weights[4] += 3
+		weights[11] += 2
+		weights[12] += 2
+	case "C06":
+		weights[9] += 4
+	case "C09":
+		weights[10] += 4
 	case "C15":
 		weights[6] += 6
 	case "C10":
@@ -763,33 +1415,66 @@ func runChain(c *kernel.Choices, p kernel.Params) *kernel.Result {
 			ntx = 1 + c.Intn(5)
 		}
 		blockGasScenario := small && c.Chance(1, 2)
+		pending, pendPriv := w.pending, w.pendPriv
+		w.pending, w.pendPriv = nil, nil
+		if len(pending) > 0 {
+			blockGasScenario = false // the probes of the packages whose deployment failed need the room
+		}
+		seedPrivate := small && bi == 0
+		if seedPrivate {
+			blockGasScenario = false
+		}
 		var txs []*simTx
+		var slots []func() *simTx // every tx is generated (and signed) right before it is delivered
+		fresh := func() *simTx {
+			t := &simTx{gas: 50_000_000, fee: 1_000_000}
+			if w.img.maxGas < t.gas {
+				t.gas = w.img.maxGas / 2
+			}
+			return t
+		}
 		w.ref.beginBlock(b)
 		var results []txResult
 		gasLeft := maxGas
+		for _, name := range pending {
+			// a (re)deployment of name failed in the previous block: whatever is (not) deployed there must
+			// behave as the model says -- then the path is deployed (again) with another body and used once more
+			name, private := name, pendPriv[name]
+			slots = append(slots, func() *simTx { t := fresh(); w.genUsePkg(t, name); return t })
+			slots = append(slots, func() *simTx { t := fresh(); w.genDeployOf(t, name, private); return t })
+			slots = append(slots, func() *simTx { t := fresh(); w.genUsePkg(t, name); return t })
+		}
 		if blockGasScenario {
 			// first fill the block: an unbounded loop whose gas limit leaves a drawn remainder
 			rem := int64(1_200_000 + c.Intn(2_500_000))
-			t := &simTx{kind: kFail, signer: w.payer(true), msgs: []simMsg{{fn: "Forever"}}, gas: maxGas - rem, fee: 1_000_000, why: fmt.Sprintf("block filler leaving %d gas", rem)}
-			w.finishTx(t)
-			txs = append(txs, t)
+			slots = append(slots, func() *simTx {
+				return &simTx{kind: kFail, signer: w.payer(true), msgs: []simMsg{{fn: "Forever"}}, gas: maxGas - rem, fee: 1_000_000, why: fmt.Sprintf("block filler leaving %d gas", rem)}
+			})
 			ntx = 1 + c.Intn(3)
+			if c.Chance(2, 3) {
+				// a tx that deploys code and (most likely) crosses the block gas limit with all messages successful
+				slots = append(slots, func() *simTx { t := fresh(); w.genDeploy(t, true); return t })
+			}
+		}
+		if seedPrivate {
+			// small-block runs start with a private realm in place: later (re)deployments that cross the block gas limit replace it
+			slots = append(slots, func() *simTx {
+				t := fresh()
+				t.kind, t.signer, t.why, t.deployOf = kOK, w.payer(false), "addpkg private", privNames[0]
+				t.msgs = []simMsg{{fn: "@addpkg", args: []string{privNames[0], strconv.Itoa(c.Intn(50))}, private: true}}
+				return t
+			})
 		}
 		for i := 0; i < ntx; i++ {
-			txs = append(txs, nil)
+			slots = append(slots, func() *simTx { return w.genTx(weights) })
 		}
-		for i := range txs {
-			t := txs[i]
-			if t == nil {
-				t = w.genTx(weights)
-				if blockGasScenario {
-					if t.kind == kOK {
-						t.kind = kBlockGas
-					}
-				}
-				w.finishTx(t)
-				txs[i] = t
+		for i, slot := range slots {
+			t := slot()
+			if blockGasScenario && t.kind == kOK {
+				t.kind = kBlockGas
 			}
+			w.finishTx(t)
+			txs = append(txs, t)
 			r := resultOf(w.ref.app.DeliverTx(deliverReq(t.bytes)))
 			results = append(results, r)
 			c.Event("h%d tx%d %s by %s [%s] gas=%d -> err=%s gasU=%d", b.Height, i, msgsString(t.msgs), t.signer, t.why, t.gas, r.Err, r.GasU)
@@ -822,6 +1507,23 @@ func runChain(c *kernel.Choices, p kernel.Params) *kernel.Result {
 			break
 		}
 		if w.rst != nil {
+			if p.Property == "C01" {
+				echoes := 0
+				for _, r := range results {
+					if settlesSeveralRealms(r) {
+						echoes = max(echoes, echoRuns)
+						if equalDeltaInTwoRealms(r) {
+							echoes = echoRunsTie
+						}
+					}
+				}
+				if echoes > 0 {
+					w.echoBlock(b, res, echoes)
+				}
+				if w.stop {
+					break
+				}
+			}
 			w.twinBlock(b, res)
 		}
 	}
@@ -838,9 +1540,8 @@ func runChain(c *kernel.Choices, p kernel.Params) *kernel.Result {
 	return w.r
 }
 
-var watchedRealms = []string{boxPath}
-
 func (w *world) checkGraph(b blockSpec, au *auditor) {
+	watchedRealms := w.watched()
 	var ids []string
 	for _, p := range watchedRealms {
 		ids = append(ids, pkgIDHex(p))
@@ -881,6 +1582,7 @@ func (w *world) checkGraph(b blockSpec, au *auditor) {
 			}
 		}
 	}
+	lockedByBlock := int64(0)
 	for i, p := range watchedRealms {
 		rec, ok := g.realms[ids[i]]
 		if !ok {
@@ -902,6 +1604,10 @@ func (w *world) checkGraph(b blockSpec, au *auditor) {
 			return
 		}
 		// constant price in this workload: every byte is backed at the genesis price
+		prevDeposit, had := int64(0), false
+		if w.lastDeposit != nil {
+			prevDeposit, had = w.lastDeposit[p]
+		}
 		if w.lastStorage != nil {
 			ds := int64(rec.Storage) - w.lastStorage[p]
 			dd := int64(rec.Deposit) - w.lastDeposit[p]
@@ -914,6 +1620,28 @@ func (w *world) checkGraph(b blockSpec, au *auditor) {
 		}
 		w.lastStorage[p], w.lastDeposit[p] = int64(rec.Storage), int64(rec.Deposit)
 		w.r.Probe("realm_storage_audited")
+		if had && int64(rec.Deposit) > prevDeposit {
+			lockedByBlock += int64(rec.Deposit) - prevDeposit
+		}
+	}
+	// C09 (cross-check of the event-based oracle, from the realm records): when the ONLY successful tx of the
+	// block limits the deposit of all of its messages, the deposits of the watched realms cannot have grown by more.
+	var okTx *simTx
+	nOK := 0
+	for i, t := range w.curTxs {
+		if i < len(w.curRes) && w.curRes[i].ok() {
+			nOK++
+			okTx = t
+		}
+	}
+	if nOK == 1 {
+		if lim, all := txDepositLimit(okTx); all {
+			if lockedByBlock > lim {
+				w.fail("C09", "deposit-exceeds-message-limit", "height %d: the only successful tx of the block, tx{%s: %s}, limits its storage deposit to %dugnot, but the deposits recorded by the realms %v grew by %dugnot in this block", b.Height, okTx.why, msgsString(okTx.msgs), lim, watchedRealms, lockedByBlock)
+				return
+			}
+			w.r.Probe("deposit_limit_cross_checked_on_realm_records")
+		}
 	}
 }
 
@@ -935,6 +1663,46 @@ func (w *world) checkGas(b blockSpec, txs []*simTx, res blockResult, maxGas int6
 		sum += charged
 		_ = txs
 	}
+}
+
+// echoBlock (C01): a block in which one tx settled the storage deposit of several realms is executed again on
+// echoRuns fresh nodes, each opened over a copy of the twin's durable image of the previous height: every one of
+// them must report the reference's tx results (error, data, events in the same order, gas) and app hash. Whatever
+// order the keeper walks the realms of a message in must not depend on the process executing it.
+// When two realms of one message changed by exactly the same number of bytes nothing but the realm path can
+// order them: such blocks are repeated more often (an order taken from Go map iteration over two entries shows
+// in about one execution of eight).
+const (
+	echoRuns    = 3
+	echoRunsTie = 12
+)
+
+func (w *world) echoBlock(b blockSpec, want blockResult, runs int) {
+	for k := 0; k < runs; k++ {
+		n, err := newNode("echo", w.rst.disk.Clone(simdb.NewMachine()), w.rst.prune)
+		if err != nil {
+			w.fail("C01", "restart", "a node cannot be opened over a copy of the twin's durable image before height %d: %v", b.Height, err)
+			return
+		}
+		if n.height != b.Height-1 {
+			n.app.Close()
+			kernel.Harnessf("echo node opened at height %d before block %d", n.height, b.Height)
+		}
+		got := n.runBlock(b)
+		n.app.Close()
+		for i := range want.Txs {
+			if i >= len(got.Txs) || got.Txs[i].key() != want.Txs[i].key() {
+				w.fail("C01", "tx-result-vs-replayed-block", "height %d tx %d: reference node: %s\n fresh node %d over the same durable image executing the same block: %s", b.Height, i, want.Txs[i].key(), k, got.Txs[i].key())
+				return
+			}
+		}
+		if !bytes.Equal(got.AppHash, want.AppHash) {
+			w.fail("C01", "app-hash-vs-replayed-block", "height %d: app hash %X on the reference node, %X on fresh node %d executing the same block over the same durable image", b.Height, want.AppHash, got.AppHash, k)
+			return
+		}
+	}
+	w.r.Probe("blocks_replayed_on_fresh_nodes")
+	w.r.ProbeN("fresh_node_block_replays", runs)
 }
 
 func (w *world) twinBlock(b blockSpec, want blockResult) {
